@@ -107,7 +107,7 @@ T_PATTERN = '''
 def compile_pattern(compiler, pattern):
     value, assignment = pattern
     if assignment is not None:
-        if assignment == Symbol(__AS_WILD__):
+        if mangle(assignment) == __AS_WILD__:
             raise compiler._syntax_error(assignment, __MSG_AS__)
         return compiler.scope.assign(
             asty.MatchAs(
@@ -264,8 +264,8 @@ def translate(repo):
     o.append("Definition if_keyword : string := %s." % q(g["__IF__"]))
     o.append("Definition class_head_excluded : list string := %s." % clist(q(g[k]) for k in ("__NS1__", "__NS2__", "__NS3__", "__NS4__")))
     o.append("Definition keyword_class_path : list string := %s." % clist(q(x) for x in kwclass.split(".")))
-    o.append("(* user errors raised by compile_pattern: `p :as <this>`; (| ...) with fewer alternatives; (. ...) with fewer symbols *)")
-    o.append("Definition as_forbidden_name : string := %s." % q(as_wild))
+    o.append("(* user errors raised by compile_pattern: `p :as n` with mangle(n) = this; (| ...) with fewer alternatives; (. ...) with fewer symbols *)")
+    o.append("Definition as_forbidden_mangled : string := %s." % q(as_wild))
     o.append("Definition or_min_alternatives : nat := %d." % mins["__OR_MIN__"])
     o.append("Definition value_min_symbols : nat := %d." % mins["__DOT_MIN__"])
     o.append("(* whether compile_pattern mangles the keyword of a class pattern into the attribute name *)")
